@@ -127,7 +127,7 @@ static const double ROTS[] = {0, M_PI / 2, M_PI, 3 * M_PI / 2, 0.5, M_PI / 4, -M
 static const int NROT = 6;      // the basic rotations (full product)
 static const int NROT_NEG = 7;  // + the negative right angle (index 6), used with origin (0,0) and magnification 1 only
 static const int NROT_EXT = 8;  // + an angle 8e-9 away from a right angle (index 7): not a multiple of pi/2, no shortcut applies
-static const double MAGS[] = {1, 2};
+static const double MAGS[] = {1, 2, 0.5};  // index 2 (a reduction) is used by dedicated sub-checks only
 static const Vec2 ORGS[] = {{0, 0}, {3, -2}};
 enum { REP_NONE = 0, REP_RECT, REP_REGULAR, REP_EXPLICIT, REP_EXPLICIT_X, REP_EXPLICIT_Y, REP_REGULAR_1COL, REP_REGULAR_1ROW, NREP };
 inline const char* rep_name(int r) { static const char* n[] = {"none", "rect2x3", "regular_skew", "explicit", "explicit_x", "explicit_y", "regular_1col_x4", "regular_3col_x1"}; return n[r]; }
